@@ -18,6 +18,7 @@
 #include <utility>
 #include <sstream>
 #include <limits>
+#include <signal.h>
 
 namespace mc {
 
@@ -109,6 +110,9 @@ struct Ctx {
   uint64_t extra_sig = 0;
 
   Ctx(int argc, char** argv) {
+    // a harness that feeds a child process through a pipe must get EPIPE, not die, when the child exits first
+    // (seen once as a shard killed by SIGPIPE on a heavily loaded machine)
+    ::signal(SIGPIPE, SIG_IGN);
     t0 = std::chrono::steady_clock::now();
     std::string knownfile;
     for (int i = 1; i < argc; ++i) {
